@@ -1,6 +1,8 @@
 package main
 
 import (
+	"go/constant"
+	"go/types"
 	"fmt"
 	"go/ast"
 	"go/token"
@@ -82,6 +84,270 @@ func ruleB(c *Ctx) {
 	c.check(n >= 5, "B", "range-tests", token.NoPos, fmt.Sprintf("%d range tests on accumulated numbers inspected (frozen minimum 5)", n))
 }
 
+// ET: the verdict survives its conversions. Every package-level table that is indexed with an ErrorHdr value (found by
+// use on SSA: err2ErrorVal in ErrorConv, errHdrStr in Error) has an explicit element for every declared ErrorHdr
+// constant; in a table of error values the element for the constant k is the constant k itself (nil only for 0), in a
+// table of strings it is non-empty. A hole turns "number too big" into "no error" for the callers that go through
+// ErrorConv(), while the value holds the truncated digits.
+func ruleET(c *Ctx) {
+	var enum []*types.Const
+	sc := c.Prog.Types.Scope()
+	for _, nm := range sc.Names() {
+		if k, ok := sc.Lookup(nm).(*types.Const); ok {
+			if n, ok := k.Type().(*types.Named); ok && n.Obj().Name() == "ErrorHdr" {
+				enum = append(enum, k)
+			}
+		}
+	}
+	sort.Slice(enum, func(i, j int) bool { return constant.Compare(enum[i].Val(), token.LSS, enum[j].Val()) })
+	c.check(len(enum) >= 18, "ET", "enum", token.NoPos, fmt.Sprintf("%d declared ErrorHdr constants (frozen minimum 18)", len(enum)))
+	tables := map[string]bool{}
+	var keys []string
+	for k := range c.Prog.SFuncs {
+		keys = append(keys, k)
+	}
+	sort.Strings(keys)
+	for _, k := range keys {
+		fn := c.Prog.SFuncs[k]
+		if fn == nil {
+			continue
+		}
+		for _, b := range fn.Blocks {
+			for _, ins := range b.Instrs {
+				ia, ok := ins.(*ssa.IndexAddr)
+				if !ok {
+					continue
+				}
+				g, ok := ia.X.(*ssa.Global)
+				if !ok {
+					continue
+				}
+				idx := ia.Index
+				for i := 0; i < 3; i++ {
+					if cv, ok := idx.(*ssa.Convert); ok {
+						idx = cv.X
+					}
+				}
+				if n, ok := idx.Type().(*types.Named); ok && n.Obj().Name() == "ErrorHdr" {
+					tables[g.Name()] = true
+				}
+			}
+		}
+	}
+	var tns []string
+	for t := range tables {
+		tns = append(tns, t)
+	}
+	sort.Strings(tns)
+	c.check(len(tns) >= 2, "ET", "tables", token.NoPos, fmt.Sprintf("tables indexed by an ErrorHdr value: %v (frozen minimum 2)", tns))
+	for _, tn := range tns {
+		var lit *ast.CompositeLit
+		for _, f := range c.Prog.Pkg.Syntax {
+			for _, d := range f.Decls {
+				gd, ok := d.(*ast.GenDecl)
+				if !ok || gd.Tok != token.VAR {
+					continue
+				}
+				for _, sp := range gd.Specs {
+					vs := sp.(*ast.ValueSpec)
+					for i, nm := range vs.Names {
+						if nm.Name == tn && i < len(vs.Values) {
+							lit, _ = vs.Values[i].(*ast.CompositeLit)
+						}
+					}
+				}
+			}
+		}
+		if lit == nil {
+			c.fail("ET", tn+":literal", token.NoPos, "the table is not initialised by a composite literal in its declaration")
+			continue
+		}
+		elems := map[int64]ast.Expr{}
+		next := int64(0)
+		for _, e := range lit.Elts {
+			v := e
+			if kv, ok := e.(*ast.KeyValueExpr); ok {
+				if ki, ok := c.Prog.constInt(kv.Key); ok {
+					next = ki
+				}
+				v = kv.Value
+			}
+			elems[next] = v
+			next++
+		}
+		for _, k := range enum {
+			kv, _ := constant.Int64Val(constant.ToInt(k.Val()))
+			e, has := elems[kv]
+			good, why := false, "no element"
+			if has {
+				tv := c.Prog.Info.Types[e]
+				switch {
+				case tv.IsNil():
+					good, why = kv == 0, "nil"
+				case tv.Value != nil && tv.Value.Kind() == constant.String:
+					good, why = constant.StringVal(tv.Value) != "", "string"
+				case tv.Value != nil:
+					ev, _ := constant.Int64Val(constant.ToInt(tv.Value))
+					good, why = ev == kv && kv != 0, fmt.Sprintf("constant %d", ev)
+				default:
+					why = "not a constant"
+				}
+			}
+			c.check(good, "ET", tn+":"+k.Name(), lit.Pos(), fmt.Sprintf("table %s has for %s (=%d) an element that is the constant itself / a non-empty text (found: %s)", tn, k.Name(), kv, why))
+		}
+	}
+}
+
+// PV: a number is used only once it is complete. UIVal is accumulated digit by digit and left at the truncated prefix
+// when the value is rejected as too big, so between two chunks, and after a rejection, it holds a number that was
+// never in the message. Outside the functions that write it, every read of a UIVal field is dominated by the true
+// edge of Parsed() on the same object (not by a weaker test such as !Empty(), which is already true while the value
+// is pending or after it failed).
+func rulePV(c *Ctx) {
+	var keys []string
+	for k := range c.Prog.SFuncs {
+		keys = append(keys, k)
+	}
+	sort.Strings(keys)
+	isUIVal := func(fa *ssa.FieldAddr) bool {
+		sd := derefStruct(fa.X.Type())
+		return sd != nil && sd.Field(fa.Field).Name() == "UIVal"
+	}
+	writers := map[string]bool{}
+	for _, k := range keys {
+		fn := c.Prog.SFuncs[k]
+		if fn == nil {
+			continue
+		}
+		for _, b := range fn.Blocks {
+			for _, ins := range b.Instrs {
+				if st, ok := ins.(*ssa.Store); ok {
+					if fa, ok := st.Addr.(*ssa.FieldAddr); ok && isUIVal(fa) {
+						writers[k] = true
+					}
+				}
+			}
+		}
+	}
+	n := 0
+	for _, k := range keys {
+		fn := c.Prog.SFuncs[k]
+		if fn == nil || writers[k] {
+			continue
+		}
+		ord := 0
+		for _, b := range fn.Blocks {
+			for _, ins := range b.Instrs {
+				u, ok := ins.(*ssa.UnOp)
+				if !ok || u.Op != token.MUL {
+					continue
+				}
+				fa, ok := u.X.(*ssa.FieldAddr)
+				if !ok || !isUIVal(fa) {
+					continue
+				}
+				obj := addrPath(fa.X)
+				n++
+				ord++
+				guarded := false
+				for _, gb := range fn.Blocks {
+					iff, ok := gb.Instrs[len(gb.Instrs)-1].(*ssa.If)
+					if !ok {
+						continue
+					}
+					call, ok := iff.Cond.(*ssa.Call)
+					if !ok {
+						continue
+					}
+					cal := call.Call.StaticCallee()
+					if cal == nil || cal.Name() != "Parsed" || len(call.Call.Args) != 1 || obj == "" || addrPath(call.Call.Args[0]) != obj {
+						continue
+					}
+					t := gb.Succs[0]
+					if len(t.Preds) == 1 && t != gb.Succs[1] && t.Dominates(b) {
+						guarded = true
+					}
+				}
+				// or: under the zero verdict of the parser call that was handed the same object
+				for _, gb := range fn.Blocks {
+					iff, ok := gb.Instrs[len(gb.Instrs)-1].(*ssa.If)
+					if !ok || guarded {
+						continue
+					}
+					bo, ok := iff.Cond.(*ssa.BinOp)
+					if !ok || bo.Op != token.EQL {
+						continue
+					}
+					if kz, isK := constIntOf(bo.Y); !isK || kz != 0 {
+						continue
+					}
+					ex, ok := bo.X.(*ssa.Extract)
+					if !ok {
+						continue
+					}
+					call, ok := ex.Tuple.(*ssa.Call)
+					if !ok || call.Call.StaticCallee() == nil || !writers[ssaKey(call.Call.StaticCallee())] {
+						continue
+					}
+					same := false
+					for _, a := range call.Call.Args {
+						if obj != "" && addrPath(a) == obj {
+							same = true
+						}
+					}
+					t := gb.Succs[0]
+					if same && len(t.Preds) == 1 && t != gb.Succs[1] && t.Dominates(b) {
+						guarded = true
+					}
+				}
+				c.check(guarded, "PV", fmt.Sprintf("%s:UIVal-read#%d", k, ord), u.Pos(), fmt.Sprintf("%s reads %s.UIVal only where the true edge of %s.Parsed() dominates the read", k, obj, obj))
+			}
+		}
+	}
+	c.check(n >= 4, "PV", "instances", token.NoPos, fmt.Sprintf("%d reads of UIVal outside its writers (frozen minimum 4)", n))
+}
+
+// SAT: a number helper that gives up on a too-big / too-long digit string hands back the saturated value. The caller
+// of pUInt64Val for the Contact expires parameter stores min(result, 2^32-1) whatever the verdict; that is the
+// documented saturation only if every return whose verdict says "does not fit" (ErrHdrNumTooBig, ErrHdrValTooLong)
+// carries the all-ones constant. A return of the initial 0 (or of the truncated prefix) makes a huge expires a
+// successful 0 — a de-registration.
+func ruleSAT(c *Ctx) {
+	fn := c.SFuncs["pUInt64Val"]
+	if fn == nil {
+		c.fail("SAT", "pUInt64Val", token.NoPos, "not found")
+		return
+	}
+	ei := errResultIndex(fn)
+	if ei != 1 {
+		c.fail("SAT", "pUInt64Val:shape", fn.Pos(), "expected results (number, verdict)")
+		return
+	}
+	big, _ := c.namedConstInt("ErrHdrNumTooBig")
+	long, _ := c.namedConstInt("ErrHdrValTooLong")
+	e := newErrAnalysis(c.Prog)
+	n := 0
+	for _, b := range fn.Blocks {
+		ret, ok := b.Instrs[len(b.Instrs)-1].(*ssa.Return)
+		if !ok {
+			continue
+		}
+		vs := e.at(ret.Results[ei], b)
+		if !vs.has(big) && !vs.has(long) {
+			continue
+		}
+		n++
+		good := false
+		if kc, ok := ret.Results[0].(*ssa.Const); ok && kc.Value != nil {
+			if u, exact := constant.Uint64Val(constant.ToInt(kc.Value)); exact && u == ^uint64(0) {
+				good = true
+			}
+		}
+		c.check(good, "SAT", fmt.Sprintf("pUInt64Val:does-not-fit-return#%d", n), ret.Pos(), fmt.Sprintf("a return of pUInt64Val with verdict %s carries the all-ones constant (the expires caller saturates min(result, 2^32-1) regardless of the verdict)", e.setName("ErrorHdr", vs)))
+	}
+	c.check(n >= 1, "SAT", "instances", token.NoPos, fmt.Sprintf("%d does-not-fit returns (frozen minimum 1)", n))
+}
+
 func init() {
 	register(&PropDef{
 		ID: "C10",
@@ -91,6 +357,19 @@ func init() {
 			{"AR", "number/field pairing for the URI port: in the extracted ParseURI automaton, every entry into a state that accumulates port digits happens with the accumulator at 0 (reachability over state x {zero, non-zero})", ruleAR},
 			{"W", "every other +,-,*,<< on an accumulator-derived value (q scaling, combined range expressions) is wrap-free at the point where it is computed", ruleW},
 			{"R", "documented ranges not implied by a type width: Content-Length <= 9 digits and <= 2^24 on its success path, the limit constants, contact expires saturating at the constant 2^32-1, q with more than three decimals flagged", ruleR},
+			{"ET", "an out-of-range verdict survives its conversions: every package-level table indexed with an ErrorHdr value (err2ErrorVal in ErrorConv, errHdrStr in Error; found by use on SSA) has an explicit element for every declared ErrorHdr constant, which is that constant itself (nil only for 0) or a non-empty text", ruleET},
+			{"PV", "a number is used only once it is complete: outside the functions that write it, every read of a UIVal field (Content-Length, Expires: accumulated digit by digit, left at the truncated prefix on a too-big rejection) is dominated by the true edge of Parsed() on the same object, or by the zero verdict of the writing parser called on that object", rulePV},
+			{"AM", "the port number keeps its digits under relocation (shared with C18-M1): AdjustOffs rebases every component, Port included, as Offs - oldStart + newStart", func(c *Ctx) {
+				t := &Ctx{Prog: c.Prog, Prop: c.Prop}
+				ruleM1(t)
+				for _, o := range t.obls {
+					o.Key = "AM:" + strings.TrimPrefix(o.Key, "M1:")
+					o.Rule = "AM"
+					c.obls = append(c.obls, o)
+				}
+				c.expectMin("AM", 6)
+			}},
+			{"SAT", "saturation reaches the caller: every return of pUInt64Val whose verdict says the digits do not fit (ErrHdrNumTooBig, ErrHdrValTooLong) carries the all-ones constant, because the Contact expires caller stores min(result, 2^32-1) whatever the verdict", ruleSAT},
 			{"N", "every narrowing integer conversion outside init has an operand whose range (intervals + dominating guards) fits the target type; conversions to OffsT are the documented 65,535 limit", ruleN},
 		},
 		Assumptions: []string{"int is at least 32 bits (upper bounds are checked against 32-bit int)", "offsets fit OffsT (documented 65,535-byte limit)"},
